@@ -253,7 +253,10 @@ class FuncScan(ast.NodeVisitor):
         fs = ast.unparse(f)
         simple = f.attr if isinstance(f, ast.Attribute) else (f.id if isinstance(f, ast.Name) else None)
         if simple is not None:
-            self.calls.append((simple, [self.origin_of_expr(a) for a in node.args]))
+            # per positional argument: its origin and, when it is literally one of this function's parameters (still
+            # bound to the caller's object), that parameter's name
+            self.calls.append((simple, [self.origin_of_expr(a) for a in node.args],
+                               [a.id if (isinstance(a, ast.Name) and self.origin.get(a.id) == "param") else None for a in node.args]))
         if fs in ("np.fill_diagonal", "numpy.fill_diagonal", "np.put", "np.place", "np.copyto", "random.shuffle", "np.random.shuffle") and node.args:
             self.record("call." + fs.split(".")[-1], node.args[0], node.lineno)
         if fs == "setattr" and node.args and isinstance(node.args[0], ast.Name) and node.args[0].id == "self":
@@ -324,8 +327,8 @@ def scan_file(repo, rel):
                     mutators.append((fn.name, plist.index(r[1])))
         for attr, ln in sc.attr_writes:
             out_attr.append((rel, owner, fn.name + ("[init-only]" if only_init else ""), attr))
-        for callee, orgs in sc.calls:
-            out_calls.append((rel, owner, fn.name, callee, orgs))
+        for callee, orgs, pnames in sc.calls:
+            out_calls.append((rel, owner, fn.name, callee, orgs, pnames, plist))
         for sub in ast.walk(fn):
             if isinstance(sub, ast.FunctionDef) and sub is not fn:
                 do(sub, owner, cls)
@@ -397,8 +400,20 @@ def emit(repo):
     mut = {}
     for name, idx in mutators:
         mut.setdefault(name, set()).add(idx)
+    # transitive closure: a function that hands one of its own parameters to a function modifying that argument in
+    # place modifies its parameter too
+    changed = True
+    while changed:
+        changed = False
+        for rel, owner, fn, callee, orgs, pnames, plist in calls:
+            if callee in mut:
+                for idx in sorted(mut[callee]):
+                    p = pnames[idx] if idx < len(pnames) else None
+                    if p is not None and p in plist and plist.index(p) not in mut.get(fn, set()):
+                        mut.setdefault(fn, set()).add(plist.index(p))
+                        changed = True
     mcalls = []
-    for rel, owner, fn, callee, orgs in calls:
+    for rel, owner, fn, callee, orgs, pnames, plist in calls:
         if callee in mut:
             for idx in sorted(mut[callee]):
                 org = orgs[idx] if idx < len(orgs) else "unknown"
